@@ -373,6 +373,23 @@ pub fn handle(op: &str, req: &J) -> J {
                 b => panic!("backend {b}"),
             }
         }
+        "inject_expr" => {
+            // build the expression with parameters, then inject_parameters(sql, values)
+            let e = expr(&req["expr"]);
+            fn go<B: QueryBuilder>(b: B, e: &SimpleExpr, ph: (&str, bool)) -> J {
+                let mut w = SqlWriterValues::new(ph.0, ph.1);
+                b.prepare_simple_expr(e, &mut w);
+                let (sql, vals) = w.into_parts();
+                let out = inject_parameters(&sql, vals.0, &b);
+                json!({"sql": cps(&out), "built": cps(&sql)})
+            }
+            match backend_of(req) {
+                "mysql" => go(MysqlQueryBuilder, &e, ("?", false)),
+                "postgres" => go(PostgresQueryBuilder, &e, ("$", true)),
+                "sqlite" => go(SqliteQueryBuilder, &e, ("?", false)),
+                b => panic!("backend {b}"),
+            }
+        }
         "fmt_float" => {
             let bits = req["bits"].as_u64().unwrap();
             let s = if req["ty"].as_str() == Some("f32") { format!("{}", f32::from_bits(bits as u32)) } else { format!("{}", f64::from_bits(bits)) };
